@@ -690,14 +690,6 @@ class BoboDistributedTCP(BoboDistributed,
                         raise BoboDistributedSystemError(
                             "Invalid ID key for URN '{}'".format(device.urn))
 
-                    # Update address if remote address has changed
-                    if client_addr != device.addr:
-                        logging.debug(
-                            "{} Device {} addr update: from '{}' to '{}'"
-                            .format(self._urn,
-                                    device.urn, device.addr, client_addr))
-                        device.addr = client_addr
-
                     if pt_type == _TYPE_SYNC or pt_type == _TYPE_RESYNC:
                         incoming = self._incoming_from_json(pt_json)
 
@@ -711,6 +703,15 @@ class BoboDistributedTCP(BoboDistributed,
                             errmsg = "Incoming queue is full."
                             logging.critical(errmsg)
                             raise BoboDistributedSystemError(errmsg)
+
+                    # Update address if remote address has changed
+                    # (only once the whole message has been validated)
+                    if client_addr != device.addr:
+                        logging.debug(
+                            "{} Device {} addr update: from '{}' to '{}'"
+                            .format(self._urn,
+                                    device.urn, device.addr, client_addr))
+                        device.addr = client_addr
 
                     # (Nothing to do on PING; it exists for outgoing.)
                     if pt_type == _TYPE_PING:
